@@ -458,7 +458,17 @@ class SkipgramVectorizer(BaseEstimator, TransformerMixin):
             tuple(*self.kernel_args.values()),
         )
 
-        base_matrix = scipy.sparse.coo_matrix((data, (row, col)))
-        result = base_matrix.tocsc()[:, self._column_is_kept].tocsr()
+        # keep only the skip-grams learned at fit and place them in the fitted column space; the shape is
+        # fixed by the number of documents and of kept columns, not by what occurs in X
+        row = np.asarray(row, dtype=np.int64)
+        col = np.asarray(col, dtype=np.int64)
+        data = np.asarray(data, dtype=np.float64)
+        known = col < self._column_is_kept.shape[0]
+        known[known] = self._column_is_kept[col[known]]
+        new_column_index = np.cumsum(self._column_is_kept) - 1
+        result = scipy.sparse.coo_matrix(
+            (data[known], (row[known], new_column_index[col[known]])),
+            shape=(len(token_sequences), self._kept_columns.shape[0]),
+        ).tocsr()
 
         return result
